@@ -164,6 +164,14 @@ mut('c13-late-joiner-one-short', 'C13', 'src/sub.rs', "        for message in su
 mut('c13-subscribe-skips-announce', 'C13', 'src/sub.rs', "        self.process_subs(subscription, SubBackendMsgType::SUBSCRIBE)\n            .await\n", "        let _ = subscription;\n        Ok(())\n", note='subscribe only updates the set: registered peers are never told')
 mut('c13-send-feed-only', 'C13', 'src/sub.rs', "                .send(Message::Message(message.clone()))\n                .await;", "                .feed(Message::Message(message.clone()))\n                .await;", note='announcement buffered but never flushed')
 mut('h-c13-rename-result', 'C13', 'src/sub.rs', "sent", "outcome", expect='no-alarm', note='HARMLESS rename')
+mut('c16-dealer-not-forgotten', 'C16', 'src/dealer.rs', "                    self.backend.peer_disconnected(&peer_id);\n", "", note='F9 returns: DEALER reports a failed peer without forgetting it')
+mut('c16-rep-read-half-kept', 'C16', 'src/rep.rs', "        self.fair_queue_inner.lock().remove(peer_id);\n", "", note='F10 returns: REP leaves the read half queued')
+mut('c16-sub-read-half-kept', 'C16', 'src/sub.rs', "        if let Some(inner) = &self.fair_queue_inner {\n            inner.lock().remove(peer_id);\n        }\n", "", note='F11 returns: SUB leaves the read half queued')
+mut('c16-pull-not-forgotten', 'C16', 'src/pull.rs', "                    self.backend.peer_disconnected(&peer_id);\n", "", note='PULL reports a failed peer without forgetting it')
+mut('c16-generic-keeps-entry', 'C16', 'src/backend.rs', "    fn peer_disconnected(&self, peer_id: &PeerIdentity) {\n        self.peers.remove_sync(peer_id);\n", "    fn peer_disconnected(&self, peer_id: &PeerIdentity) {\n", note='the table entry (write half) of a failed peer survives')
+mut('c16-xpub-wrong-peer', 'C16', 'src/xpub.rs', "        self.fair_queue_inner.lock().remove(peer_id);", "        let _ = &self.fair_queue_inner;", note='XPUB leaves the read half queued')
+mut('c16-sub-forgets-everyone', 'C16', 'src/sub.rs', "        self.peers.remove_sync(peer_id);\n        // Also drop", "        self.peers.clear_sync();\n        // Also drop", note='one failed peer makes SUB forget every peer (isolation)')
+mut('h-c16-rename', 'C16', 'src/dealer.rs', "Some((peer_id, Err(e)))", "Some((failed_peer, Err(e)))", expect='no-alarm', more=[("self.backend.peer_disconnected(&peer_id);", "self.backend.peer_disconnected(&failed_peer);")], note='HARMLESS rename')
 mut('h-req-closure', 'C07', 'src/req.rs', "        if self.current_request.is_some() {", "        if self.current_request.as_ref().map(|p| true).unwrap_or(false) {", expect='no-alarm', note='HARMLESS but through an un-annotated closure: Verus forgets the result, so the failed obligations must be reported as undecided (shape guard), never as a violation')
 mut('h-rr-extra-loop', 'C10', 'src/backend.rs', "        // In normal scenario this will always be only 1 iteration", "        let mut spins = 0u8;\n        while spins < 3 {\n            spins += 1;\n        }\n        // In normal scenario this will always be only 1 iteration", expect='no-alarm', note='HARMLESS extra loop the contracts carry no invariant for: undecided at worst')
 
